@@ -225,22 +225,21 @@ Definition auto_budget (available lws : Z) : Z := gen_auto_budget (available_bud
 (* ------------------------------------------------------------------ observations for the harness *)
 Definition obs_status (s : status) : val := match s with Running => VZ 0 | Raised => VZ 1 end.
 Definition obs_w (s : wstate) : val :=
-  VL [vlistZ (rfs s); vlistZ (stg s); vlistZ (rfi s); vlistZ (io s); VZ (rem s); obs_status (wst s);
+  VL [vlistZ (rfs s); vlistZ (stg s); vlistZ (rfi s); vlistZ (io s); obs_status (wst s);
       vlistZ (lstage s); vlistZ (lwrite s)].
 
-(* the harness supplies: requests, K, B, initial visit order, events; the model answers with the state after
-   every event (sets are compared sorted by the harness, so lists are returned sorted by insertion order) *)
-Fixpoint wtrace (rq : reqs) (K : Z) (s : wstate) (evs : list wevent) : list val :=
-  match evs with
-  | [] => []
-  | e :: r => let s' := wstep rq K s e in obs_w s' :: wtrace rq K s' r
-  end.
-Definition obs_wrun (x : reqs * (Z * Z) * list Z * list wevent) : val :=
-  let '(rq, (K, B), v0, evs) := x in
-  let s0 := winit rq B v0 in VL (obs_w s0 :: wtrace rq K s0 evs).
+(* the harness supplies: requests, K, B, initial visit order, events (with the visit orders it observed) and
+   the step indices at which the real code exposes its remaining budget (hand-off to PendingIOWork, end);
+   the model answers with the state after every event and its budget at those indices *)
+Fixpoint wstates (rq : reqs) (K : Z) (s : wstate) (evs : list wevent) : list wstate :=
+  s :: match evs with [] => [] | e :: r => wstates rq K (wstep rq K s e) r end.
+Definition obs_wrun (x : reqs * (Z * Z) * list Z * list wevent * list Z) : val :=
+  let '(rq, (K, B), v0, evs, ridx) := x in
+  let ss := wstates rq K (winit rq B v0) evs in
+  VL [VL (map obs_w ss); vlistZ (map (fun k => rem (nth (Z.to_nat k) ss (winit rq B v0))) ridx)].
 
 Definition obs_r (s : rstate) : val :=
-  VL [vlistZ (pend s); vlistZ (rio s); vlistZ (cons s); VZ (rrem s); obs_status (rst s);
+  VL [vlistZ (pend s); vlistZ (rio s); vlistZ (cons s); obs_status (rst s);
       vlistZ (lread s); vlistZ (lcons s)].
 Fixpoint rtrace (rq : reqs) (K : Z) (s : rstate) (evs : list revent) : list val :=
   match evs with
@@ -250,4 +249,4 @@ Fixpoint rtrace (rq : reqs) (K : Z) (s : rstate) (evs : list revent) : list val 
 Definition obs_rrun (x : reqs * (Z * Z) * list revent) : val :=
   let '(rq, (K, B), evs) := x in VL (rtrace rq K (rinit rq B) evs).
 
-Definition obs_auto_budget (x : Z * Z) : val := VZ (auto_budget (fst x) (snd x)).
+Definition obs_auto_budget (x : Z * Z) : val := VZ (gen_auto_budget (fst x) (snd x) gen_budget_cap).
